@@ -216,6 +216,37 @@ func VerifC03PullOrder(maxLayers int) {
 	}
 }
 
+// VerifC03PullTwice: a history of two pull attempts of one manifest into an initially empty store (no
+// previous manifest): the second attempt meets whatever the first one left behind.
+func VerifC03PullTwice(maxLayers int) {
+	vfPresent, vfGood = map[string]bool{}, map[string]bool{}
+	vfOld = nil
+	vfNew = &Manifest{SchemaVersion: 2}
+	n := 1 + verifChoice(maxLayers)
+	for i := 0; i < n; i++ {
+		vfNew.Layers = append(vfNew.Layers, Layer{MediaType: "application/vnd.ollama.image.model", Digest: vfDigests[verifChoice(len(vfDigests))], Size: 10})
+	}
+	envconfig.NoPrune = func() bool { return false }
+	for attempt := 0; attempt < 2; attempt++ {
+		vfTrace = nil
+		err := PullModel(context.Background(), "registry.example/library/m:latest", &registryOptions{}, func(r api.ProgressResponse) {})
+		verifReach("pull-returned")
+		if err == nil {
+			verifReach("pull-succeeded")
+			tag := "published-model-has-every-layer-intact"
+			if attempt > 0 {
+				// known-finding class: blobs left by an earlier attempt that ended before verifying them
+				tag += "@left-unverified-by-an-earlier-attempt"
+			}
+			for _, d := range vfLayersOf(vfNew) {
+				verifAssert(vfPresent[d], "published-model-has-every-layer-present")
+				verifAssert(vfGood[d], tag)
+			}
+			return
+		}
+	}
+}
+
 // ---- push ----
 
 func vfUploadBlob(ctx context.Context, mp ModelPath, layer Layer, opts *registryOptions, fn func(api.ProgressResponse)) error {
